@@ -1,6 +1,7 @@
 //! C11 — concurrent writers cannot scramble the wire (DX).
 
-use crate::ctl::{ExploreCfg, Outcome, explore_iterative, hpoint, scenario};
+use crate::ctl::{Outcome, hpoint, scenario};
+use crate::dxrun::{DxItem, DxOpts, run_items};
 use crate::refmodel::*;
 use crate::report::{Report, Tier};
 use crate::sess::*;
@@ -325,6 +326,13 @@ pub fn all_params(tier: Tier) -> Vec<(Params, usize)> {
     v
 }
 
+pub fn items(tier: Tier) -> Vec<DxItem> {
+    all_params(tier)
+        .into_iter()
+        .map(|(p, b)| DxItem::new(params_json(&p), make(p), b))
+        .collect()
+}
+
 pub fn run(tier: Tier) -> i32 {
     let mut rep = Report::new("C11", tier, "model_checking");
     rep.assumptions = vec![
@@ -332,25 +340,17 @@ pub fn run(tier: Tier) -> i32 {
         "sequentially consistent atomics (weak memory not modelled)".into(),
         "the scripted peer consumes everything (no back-pressure) unless the variant says otherwise".into(),
     ];
-    let budget = if tier.is_thorough() { 1200 } else { 40 };
-    let all = all_params(tier);
-    let per = Duration::from_secs_f64(budget as f64 / all.len() as f64 * 2.0);
-    for (p, bound) in all {
-        let sc = make(p.clone());
-        let mut cfg = ExploreCfg::new(format!("c11:{}", params_json(&p)), bound);
-        cfg.time_cap = per;
-        cfg.known = rep.known_fn();
-        cfg.det_replays = if tier.is_thorough() { 50 } else { 8 };
-        match explore_iterative(&sc, &cfg) {
-            Ok(st) => {
-                if st.distinct_obs < 2 && st.executions > 50 {
-                    rep.machinery(format!("vacuous scenario {}: one observation from {} executions", cfg.name, st.executions));
-                }
-                rep.sample(json!({"scenario": params_json(&p), "bound": bound, "executions": st.executions, "distinct_wires": st.distinct_obs}));
-                rep.absorb_dx(&st, params_json(&p));
-            }
-            Err(e) => rep.machinery(e),
-        }
-    }
+    let cap = Duration::from_secs(if tier.is_thorough() { 1200 } else { 60 });
+    run_items(
+        &mut rep,
+        "C11",
+        tier,
+        items(tier),
+        DxOpts { time_cap: cap, det_replays: if tier.is_thorough() { 50 } else { 8 }, max_violations: 3, vacuity_check: true },
+    );
     rep.finish("DX: every execution of {2 openers (+forwarding task, +heartbeat writer)} x {3 padding schemes} x {fresh / non-initial session} with <= B forced yields / short or pending transport writes; non-trivial = distinct trace with >= 1 deviation")
+}
+
+pub fn replay(file: &str) -> i32 {
+    crate::dxrun::replay(file, items)
 }
